@@ -15,7 +15,8 @@ CHECK = Check(
     "C06",
     rule=(
         "pairs of 3D boxes built by construction in classes {independent, near-identical, nested, touching, "
-        "disjoint, sliver, axis-aligned/near multiples of pi/2, corner-overlap} with both quaternion signs and z offsets around the "
+        "disjoint, sliver, axis-aligned/near multiples of pi/2, corner-overlap, copies perturbed by a few ulps, same-yaw boxes "
+        "sharing a side line or corner} with both quaternion signs and z offsets around the "
         "height-overlap boundary, plus a common rigid motion (rotation about the ego, translation up to 1e5 m) and a "
         "map-frame rendering; pairs of integer ROIs likewise. Non-trivial = overlapping, non-identical, "
         "non-axis-aligned pair (0.01 < reference IoU < 0.99 and yaw not within 1e-3 of a multiple of pi/2) for 3D; "
@@ -45,7 +46,7 @@ def _box(draw, x=None, y=None):
 
 @st.composite
 def pairs3d(draw, tier="quick"):
-    kind = draw(st.sampled_from(["indep", "near", "nested", "touch", "disjoint", "sliver", "axis", "overlap", "overlap", "corner", "corner", "ulp"]))
+    kind = draw(st.sampled_from(["indep", "near", "nested", "touch", "disjoint", "sliver", "axis", "overlap", "overlap", "corner", "corner", "ulp", "shared"]))
     a = _box(draw)
     if kind == "sliver":
         a["size"] = [draw(GEN.fl(0.05, 0.1)), draw(GEN.fl(5, 30)), draw(GEN.fl(0.5, 3))]
@@ -74,6 +75,15 @@ def pairs3d(draw, tier="quick"):
             return v
 
         b.update(p=[nudge(c) for c in a["p"]], yaw=nudge(a["yaw"]), size=[nudge(c) for c in a["size"]])
+    elif kind == "shared":
+        # same yaw and a shared side line: same centre and width with another length, or b scaled about one of a's corners
+        c, sn = math.cos(a["yaw"]), math.sin(a["yaw"])
+        if draw(st.booleans()):
+            b.update(p=list(a["p"]), yaw=a["yaw"], size=[w, l * draw(GEN.fl(0.3, 1.7)), h])
+        else:
+            f = draw(GEN.fl(0.3, 0.95))
+            dx, dy = draw(st.sampled_from([1, -1])) * (1 - f) * l / 2, draw(st.sampled_from([1, -1])) * (1 - f) * w / 2
+            b.update(p=[a["p"][0] + c * dx - sn * dy, a["p"][1] + sn * dx + c * dy, a["p"][2]], yaw=a["yaw"], size=[w * f, l * f, h])
     elif kind == "nested":
         s = draw(GEN.fl(0.2, 0.9))
         b.update(p=list(a["p"]), yaw=a["yaw"] + draw(st.sampled_from([0.0, PI, PI / 2])), size=[w * s, l * s, h * draw(GEN.fl(0.3, 1.5))])
@@ -143,25 +153,43 @@ def close(a, b, abs_tol, rel=0.0):
     return abs(a - b) <= abs_tol + rel * max(abs(a), abs(b))
 
 
-# Known finding (DESIGN §11 D19): for two footprints that coincide up to a few ulps without being bit-identical, the
-# GEOS overlay behind shapely's Polygon.intersection can return a degenerate geometry (the four shared corners as a
-# MULTIPOINT, area 0) in one argument order, so the library reports IoU 0 for boxes whose true IoU is 1 - 1e-15.
-# Measured failure region: corner displacement <= 1.3e-14 * max(1, |coordinate|); the class below is 1e-12 wide.
-NC_SIG = "near-coincident-footprints-intersection-lost"
+# Known finding (DESIGN §11 D19): when an edge of one footprint lies on (or within a few ulps of) the supporting line of an
+# edge of the other and the two edges overlap — boxes that coincide up to rounding, or a box nested in another with the
+# same yaw and a shared side line or corner — the GEOS overlay behind shapely's Polygon.intersection can return a
+# degenerate geometry (shared corners as a MULTIPOINT, area 0) in ONE argument order, so the library reports IoU 0 for
+# boxes that overlap.  Measured: ~0.9 % of same-centre / same-yaw / same-width pairs, ~0.25 % of copies perturbed by one
+# ulp per parameter, none in 360 000 pairs without such an edge pair.
+NC_SIG = "collinear-overlapping-edges-intersection-lost"
 
 
 def near_coincident(a, b):
+    """True iff some edge of a and some edge of b are collinear within 1e-9 * scale and overlap (not bit-identical boxes)."""
     ca, cb = G.rect_corners(*D.ego_box(a)), G.rect_corners(*D.ego_box(b))
     if ca == cb:
         return False
     scale = max(1.0, max(abs(c) for p in ca + cb for c in p))
-    h = max(max(min(math.dist(p, q) for q in cb) for p in ca), max(min(math.dist(p, q) for q in ca) for p in cb))
-    return h <= 1e-12 * scale
+    tol = 1e-9 * scale
+
+    def line_dist(p, q0, q1):
+        ex, ey = q1[0] - q0[0], q1[1] - q0[1]
+        n = math.hypot(ex, ey)
+        return abs((p[0] - q0[0]) * ey - (p[1] - q0[1]) * ex) / n, ((p[0] - q0[0]) * ex + (p[1] - q0[1]) * ey) / n, n
+
+    for i in range(4):
+        p0, p1 = ca[i], ca[(i + 1) % 4]
+        for j in range(4):
+            q0, q1 = cb[j], cb[(j + 1) % 4]
+            d0, t0, n = line_dist(p0, q0, q1)
+            d1, t1, _ = line_dist(p1, q0, q1)
+            if d0 <= tol and d1 <= tol and min(max(t0, t1), n) - max(min(t0, t1), 0.0) > tol:
+                return True
+    return False
 
 
 def nsig(nc, sig, *scores):
-    """Signature of a failed IoU comparison: the known finding only for a near-coincident pair whose library BEV IoU collapsed."""
-    if nc and any(sc is not None and sc["iou2"] < 0.5 for sc in scores):
+    """Signature of a failed IoU comparison: the known finding only for a pair with collinear overlapping edges whose
+    library BEV IoU collapsed to (numerically) nothing."""
+    if nc and any(sc is not None and sc["iou2"] <= 1e-9 for sc in scores):
         return NC_SIG
     return sig
 
@@ -177,7 +205,7 @@ def pairs3d_body(ctx, d):
     ba, bb = D.ego_box(a), D.ego_box(b)
     nc = near_coincident(a, b)
     if nc:
-        ctx.cls("near_coincident_footprints")
+        ctx.cls("collinear_overlapping_edges")
     r_iou2 = G.box_iou_bev(ba, bb)
     r_iou3 = G.box_iou_3d(ba, a["p"][2], a["size"][2], bb, b["p"][2], b["size"][2])
     r_cd = math.dist(a["p"], b["p"])
